@@ -21,11 +21,11 @@ RULE = ("roll-up streams: RU2 / RU3 / RU4 sent once or repeated on every line, C
         'The SCCReader object is fresh or has a past (see C05). '
         "Lines are written in lexical variants too: 1-3 blanks between code words, blanks for "
         "the tab after the timecode, blanks / a tab after the last word; a line may be spread over "
-        "frame-contiguous lines at any word. Rows also carry extended characters (stand-in + code). ")
+        "frame-contiguous lines at any word. Rows also carry extended characters (stand-in + code), mid-row codes and leading blanks. ")
 ASSUMPTIONS = [
     "captions that share a start time (rows of one paint-on burst on non-adjacent screen rows) "
     "are one display state: adjacency of end/start is judged between groups of equal start",
-    "rows contain at least one visible character and no leading/trailing space",
+    "rows contain at least one visible character and no trailing space; one or two leading blanks may open a row and must come back (the reader itself strips blanks at line ends, so only those are not judged)",
 ]
 
 WORDS = ["hello", "world", "a", "I", "OK", "rolling", "up", "captions", "123", "don't", "x-ray", "Mr."]
@@ -64,6 +64,10 @@ def row_strategy():
         fill = draw(st.sampled_from([None, None, None, 32, 31, 30]))
         if any(p[0] == "mid" for p in parts):
             fill = None      # (rows with a mid-row code are not padded to the last column)
+        elif parts[0][0] == "w" and n <= 28 and draw(st.integers(0, 5)) == 0:
+            # blanks are displayable characters too: a row may begin with one or two of them
+            parts[0] = ["w", " " * draw(st.integers(1, 2)) + parts[0][1]]
+            n += len(parts[0][1]) - len(parts[0][1].lstrip())
         if fill and n + 2 <= fill:
             # pad the row to exactly `fill` columns (rows of 31 / 32 columns are legal)
             parts.append(["w", ("x" * 40)[:fill - n - 1]])
@@ -229,6 +233,13 @@ def check_stream(case, rec):
         rr = _squash(r)
         require(any(rr in _squash(ln) for ln in all_lines),
                 lambda: f"row {r!r} is not kept together on one line of one caption: captions {texts}; document: {doc}")
+        lead = len(r) - len(r.lstrip(" "))
+        if lead:
+            # the blanks a row begins with are transmitted characters as well
+            body = r.strip()
+            require(any(ln.rstrip().endswith(r.rstrip()) or (" " * lead + body) in ln for ln in all_lines),
+                    lambda: f"row {r!r}: its {lead} leading blank(s) did not come back: captions {texts}; document: {doc}")
+            rec.label("row-with-leading-blanks")
     groups = []
     for c in caps:
         if groups and groups[-1][0] == c.start:
